@@ -99,6 +99,22 @@ def run(ctx, chk):
                 if skey in spawn_seen:
                     continue
                 spawn_seen[skey] = (c, ctxs, ef, p)
+    # nothing on the manager's paths (helpers inlined) removes a sender from a dispatch box
+    narrowed = []
+    for p in paths:
+        for ef in p.effects:
+            if ef['kind'] != 'call' or ef['tracing'] or not ef.get('fn'):
+                continue
+            last = ef['callee'].split('::')[-1]
+            if 'HashMap' in ef['callee'] and last in ('remove', 'retain', 'clear', 'drain', 'remove_entry', 'extract_if', 'take'):
+                ob_ = fb.body(ef['site'][0])
+                tys = [ob_.crate.types[t_]['s'] for t_ in (ef['fn'].get('targs') or [])] if ob_ is not None else []
+                if any('mpsc::Sender' in s_ for s_ in tys) and ef['site'] not in [x['site'] for x in narrowed]:
+                    narrowed.append(ef)
+    for ef in narrowed:
+        chk.ob('C15.N2', 'web:sender-removed:%s' % ef['callee'].split('::')[-1], False, ef['site'][2],
+               '%s removes senders from a dispatch box before the threads are spawned: a thread that lost the MainThread sender '
+               'cannot report its death' % ef['callee'])
     chk.ob('C15.N2', 'web:all-ids-registered', {'MainThread', 'ClockErrorBoundPoller', 'ShmWriter'} <= web_ids, tmb.where(0),
            'channel web is created for ids %s' % sorted(web_ids))
     workers = {}
@@ -128,6 +144,13 @@ def run(ctx, chk):
                         mb_id = pv[2]
         chk.ob('C15.N2', 'spawn:mailbox-matches-id:%s' % cid, cid is not None and mb_id == cid, where,
                'Context{channel_id: %s} holds the mailbox of %s' % (cid, mb_id))
+        # the dispatch box a thread is given is the web's own box or a plain clone of it: the thread's death notice
+        # (Drop for Context) needs the MainThread sender, the poller needs the writer's
+        dbox = [v_ for k_, v_ in f.items() if v_ is not mbox and v_[0] in ('agg', 't') and 'DispatchBox' in (v_[1] if v_[0] == 'agg' else fmt(v_))]
+        okd, whyd = False, 'no DispatchBox field in the Context'
+        if dbox:
+            okd, whyd = dispatch_box_is_plain_clone(eng, p, dbox[0], mbox)
+        chk.ob('C15.N2', 'spawn:dispatch-box-is-the-full-web:%s' % cid, okd, where, whyd)
         # the closure hands the Context by value to its worker
         cb = fb.body(cname[len('closure:'):])
         wk = None
@@ -356,6 +379,39 @@ def explicit_loop_broadcast(fb, chk, b, ids):
             chk.ob('C15.N4', 'broadcast:filter-excludes-only-main', False, p.where[2],
                    'an iteration does not decide on `id == MainThread`: %s' % [psi.fmt_cond(c)[:80] for c in p.conds][:3])
     chk.floor('C15.N4', 'broadcast loop iterations analysed', n_iter, 2)
+
+
+def dispatch_box_is_plain_clone(eng, p, dbox, mbox):
+    """the DispatchBox value is built from the channel web by Clone::clone only: the only calls in its provenance are
+    clones and the call that created the web (the same call the mailbox map came from)"""
+    def provenance_calls(v, stop=(), depth=0):
+        out = []
+        if v[0] == 't' and v[1] == 'call' and v[2][0] in stop:
+            return [v]
+        for x in ([v] if v[0] == 't' and v[1] == 'call' else []) + [y for y in psi.walk(v) if y is not v]:
+            if x[0] == 't' and x[1] == 'call' and isinstance(x[2][1], int):
+                out.append(x)
+                if x[2][0] in stop:
+                    continue
+                if x[2][1] < len(p.effects) and depth < 4:
+                    for pv in p.effects[x[2][1]].get('pointees') or []:
+                        if pv is not None:
+                            out += provenance_calls(pv, stop, depth + 1)
+        return out
+    mcalls = provenance_calls(mbox) if mbox is not None else []
+    web = {c[2][0] for c in mcalls if 'clock_bound_d' in c[2][0]}
+    dcalls = [c for c in provenance_calls(dbox, stop=web)]
+    # arguments of the web constructor itself (the id list) are not part of the box's provenance
+    def inside_web(c):
+        return any(c is not w and any(y == c for y in psi.walk(w)) for w in dcalls if w[2][0] in web)
+    dcalls = [c for c in dcalls if not inside_web(c)]
+    other = sorted({c[2][0] for c in dcalls if not c[2][0].endswith('Clone>::clone') and c[2][0] not in web})
+    from_web = any(c[2][0] in web for c in dcalls)
+    if other:
+        return False, 'the dispatch box handed to the thread is produced by %s, not by cloning the channel web' % other
+    if not from_web:
+        return False, 'the dispatch box handed to the thread does not come from the call that created its mailbox (%s)' % sorted(web)
+    return True, 'dispatch box = clone of the web created by %s' % sorted(web)
 
 
 def common_variant_names(fb, suffix):
